@@ -177,4 +177,5 @@ def main():
 
 
 if __name__ == "__main__":
-    main()
+    from harness.common import run_check
+    run_check("C04", main)
